@@ -27,6 +27,7 @@
  */
 
 #include <assert.h>
+#include <limits.h>
 #include <zlib.h>
 #include "list.h"
 #include "erasurecode.h"
@@ -476,6 +477,16 @@ int liberasurecode_encode(int desc,
 
     k = instance->args.uargs.k;
     m = instance->args.uargs.m;
+
+    /*
+     * Sizes are handled as int internally: refuse an input whose aligned
+     * length plus a fragment header cannot be represented
+     */
+    if (orig_data_size > (uint64_t)(INT_MAX - get_aligned_data_size(instance, 1)
+                                    - (int)sizeof(fragment_header_t))) {
+        log_error("Data buffer is too large!");
+        return -EINVALIDPARAMS;
+    }
 
     /*
      * Allocate arrays for data, parity and missing_idxs
